@@ -348,7 +348,7 @@ def seq_late_reply(rep, rng):
     rep.case(('seq-late-reply', k, victim), True, sample=replay)
 
 
-def seq_tag_history(rep, rng):
+def seq_tag_history(rep, rng, lines=None, expect=None):
     """consume / cancel / broker-cancel / deliver over a few client-named tags, re-used freely, on one channel: every
     delivery handed out by process_data_events goes to the callback given to the *latest* consume() of its tag, and
     only while the tag is listed (the earlier consumer with the same name is gone, its callback must not come back)"""
@@ -379,6 +379,7 @@ def seq_tag_history(rep, rng):
     def make_cb(tag, g):
         return lambda m: got.append((tag, g, m.method['delivery_tag']))
     dtag = 0
+    ops, outs = [], []
     for _ in range(rng.randint(3, 10)):
         tag = rng.choice(names)
         op = rng.choice(['consume', 'cancel', 'broker-cancel', 'deliver', 'deliver'])
@@ -386,12 +387,15 @@ def seq_tag_history(rep, rng):
             gen[0] += 1
             ch.basic.consume(make_cb(tag, gen[0]), 'q', consumer_tag=tag)
             current[tag] = gen[0]
+            ops.append('c:%s:%d' % (tag, gen[0]))
         elif op == 'cancel' and tag in current:
             ch.basic.cancel(tag)
             del current[tag]
+            ops.append('x:%s' % tag)
         elif op == 'broker-cancel' and tag in current:
             ch.on_frame(spec.Basic.Cancel(consumer_tag=tag))
             del current[tag]
+            ops.append('b:%s' % tag)
         elif op == 'deliver' and tag in current:
             dtag += 1
             ch.on_frame(spec.Basic.Deliver(consumer_tag=tag, delivery_tag=dtag, exchange='', routing_key='q'))
@@ -399,6 +403,8 @@ def seq_tag_history(rep, rng):
             ch.on_frame(pbody.ContentBody(b'x'))
             del got[:]
             ch.process_data_events()
+            ops.append('d:%s' % tag)
+            outs += ['%s:%d' % (g[0], g[1]) for g in got]
             want = [(tag, current[tag], dtag)]
             hist.append((op, tag))
             if got != want:
@@ -414,6 +420,9 @@ def seq_tag_history(rep, rng):
         if sorted(ch.consumer_tags) != sorted(current):
             rep.violation('C14/tag-list', 'after %r the client lists %r, live consumers are %r' % (hist, sorted(ch.consumer_tags), sorted(current)), replay)
             break
+    if lines is not None and ops:
+        lines.append('c14.tags %s' % ','.join(ops))
+        expect.append('out=%s tags=%s' % (','.join(outs) or '-', ','.join(ch.consumer_tags) or '-'))
     reuse = len([h for h in hist if h[0] == 'consume']) > len(set(h[1] for h in hist if h[0] == 'consume'))
     rep.case(('seq-tag-history', tuple(hist)), reuse, sample=replay)
 
@@ -430,10 +439,11 @@ def check(rep):
         'the broker cancels only consumers whose consume() call has returned (see Props/C14 early_broker_cancel_loses_track)',
         'KeyError on a delivery that overtakes the callback binding is a recorded finding',
     ]
+    tlines, texpect = [], []
     for _ in range(10 if not thorough else 100):
         seq_late_reply(rep, rng)
         for _k in range(8):
-            seq_tag_history(rep, rng)
+            seq_tag_history(rep, rng, tlines, texpect)
     jobs = []
     for path in sorted((common.CORPUS / 'C14').glob('*.json')):
         d = json.loads(path.read_text())
@@ -511,6 +521,11 @@ def check(rep):
                 bad.add(o)
                 if len(bad) <= 20:
                     rep.mismatch({'line': l, 'scenario': jobs[o][0], 'seed': jobs[o][1]}, g[:250], e[:250])
+        got = common.run_driver(tlines)
+        rep.corr_cases += len(tlines)
+        for l, g, e in zip(tlines, got, texpect):
+            if g != e:
+                rep.mismatch({'line': l}, g[:250], e[:250])
     else:
         rep.infra_errors.append('lean driver not buildable')
 
